@@ -569,7 +569,9 @@ func canonPoints(m map[pointKey][]float64) string {
 	var sb strings.Builder
 	for _, k := range sortedKeys(m) {
 		vs := append([]float64(nil), m[k]...)
-		sort.Float64s(vs)
+		sort.Slice(vs, func(i, j int) bool { // total order: -0 before +0
+			return vs[i] < vs[j] || (vs[i] == vs[j] && math.Signbit(vs[i]) && !math.Signbit(vs[j]))
+		})
 		fmt.Fprintf(&sb, "%s=%v\n", k, vs)
 	}
 	return sb.String()
